@@ -27,7 +27,9 @@ RangeOK(d) ==
     /\ d.known
     /\ d.l1 >= 1 /\ d.l1 <= d.nlines /\ d.l2 >= d.l1 /\ d.l2 <= d.nlines
     /\ d.c1 >= 1 /\ d.c1 <= d.len1 + 1
-    /\ d.c2 >= 1 /\ d.c2 <= d.len2 + 1
+    \* the (exclusive) end may lie behind the line's last character, and behind its newline when the range covers that newline
+    \* (e.g. a backslash directly before the line break); the last line has no newline behind it
+    /\ d.c2 >= 1 /\ d.c2 <= d.len2 + 1 + (IF d.l2 < d.nlines THEN 1 ELSE 0)
     /\ (d.l1 = d.l2 => d.c1 <= d.c2)
 RangesOK(ev) == \A i \in 1..Len(ev.diags) : RangeOK(ev.diags[i])
 Renderable(ev) == ev.renderpanics = 0
